@@ -370,7 +370,7 @@ def run(ctx):
                 jobs.append(("family", name, k, nk, ctx.thorough))
         if R.analyse(real).ok:
             L, sites = SP.s6_sites(real)
-            stride = ctx.q(24, 2)
+            stride = ctx.q(24, 1)
             _REAL = (L, sites[::stride])
             for k in range(64):
                 jobs.append(("real-edits", k, 64))
@@ -404,7 +404,7 @@ def run(ctx):
         "attributes, keywords, types) were compared with the schema; distinct = distinct (generator, schema text)."
         % ("" if ctx.thorough else " (quick: direct plus one of the other three in rotation; second run for "
            "determinism on every 4th schema; S1 through the three generators that look at attributes: table, xsd, dm)", 15 if ctx.thorough else 12, 4 if ctx.thorough else 3, len(SP.ENUM_KEYS), len(SP.ENUM_VALUES),
-           "2nd" if ctx.thorough else "24th"))
+           "" if ctx.thorough else "24th"))
     ctx.assumptions = [
         "generator configuration tables (dm_control overlays, EXCLUDED_ELEMENTS, ELEMENT_ORDER, NOT_TABLE_DRIVEN, "
         "SENSOR_DISPATCH, HAND_GROUPS, EMIT_GROUPS, UNSET_SENTINELS, DIM_EQUIV) are taken as given",
